@@ -581,6 +581,7 @@ class funcdecl_port_kind:
 class dataflow_outer_interface:
     interface = True
     trusted = True
+    ghost_def = True   # sig_in / sig_out are *defined* as the rows this method reports
     returns = "FunctionType"
 
     def modifies(self):
